@@ -134,6 +134,8 @@ class CtxBase:
             except StopIteration:
                 break
             out.append(x)
+            if len(out) > 20000:
+                raise Unexpected('iterator yielded more than 20000 items (it does not end)')
             streams = [st for st in getattr(self, '_streams', []) if not getattr(st, 'closed', False)]
             if streams and pos is None:
                 pos = self.int_range('drain%d.pos' % n, 0, 4095)
